@@ -1353,6 +1353,19 @@ class H2Stream:
         self._inbound_window_manager.window_opened(delta)
         self._inbound_window_manager.max_window_size = new_max_size
 
+        # The thresholds for automatic window updates depend on the maximum
+        # window size. Bytes that were acknowledged earlier without reaching
+        # the old threshold may reach the new one: emit the update now, or a
+        # stream whose window was shrunk to zero would never be re-opened.
+        if self.open:
+            increment = self._inbound_window_manager.process_bytes(0)
+            if increment:
+                f = WindowUpdateFrame(self.stream_id)
+                f.window_increment = increment
+                return [f]
+
+        return []
+
 
 def _decode_headers(headers, encoding):
     """
